@@ -2,15 +2,15 @@
     PARTIAL. Proved for every graph, command line and environment: (soundness of the search) whatever
     State.apply accepts is an accepting run of the compiled automaton ([Acc]: at each state a leading
     "--" is dropped once, a transition is taken when its matcher succeeds on what is left, the run
-    ends in a terminal state with nothing left), and the search always ends (C03). NOT yet proved:
-    that the automaton built by the Thompson construction and simplified by Prepare has exactly the
-    runs of the regular expression (T1), that the depth-first search with the visited set finds a run
-    whenever one exists (T2, completeness), and that matcher-level runs coincide with the sentences
-    of the reference semantics of RefSem.v (T4). These are covered on every run by the check: the
+    ends in a terminal state with nothing left), the search always ends (C03), and (backtracking
+    completeness) it finds an accepting run whenever one exists: accepted iff the automaton has an
+    accepting run. NOT yet proved: that the automaton built by the Thompson construction and simplified
+    by Prepare has exactly the runs of the regular expression (T1), and that matcher-level runs
+    coincide with the sentences of the reference semantics of RefSem.v (T4). These are covered on every run by the check: the
     automaton of every generated spec is compared with the implementation's, and the implementation's
     verdict is compared with the reference semantics ([RefSem.r_match], an independent backtracking
     matcher over symbol sequences) on every claimed case. *)
-From MowCli Require Import Base Parser Nfa Matchers Apply Values Flow Cmd RefSem ApplyProofs TermProofs.
+From MowCli Require Import Base Parser Nfa Matchers Apply Values Flow Cmd RefSem ApplyProofs TermProofs CompleteProofs.
 
 Theorem C01_accepts_only_accepting_runs :
   forall D g start args bs,
@@ -26,7 +26,29 @@ Proof.
   destruct (fsm_apply D g start args) as [bs| |]; [left; eauto | now right | congruence].
 Qed.
 
+(** backtracking completeness: whenever some accepting run exists — some assignment of the tokens to
+    the transitions — the depth-first search with the visited set finds one, for command lines of
+    any length, any graph, any environment *)
+Theorem C01_search_complete :
+  forall D g start args bs,
+    wf_graph g -> start < nstates g ->
+    Acc D g start args false bs -> exists b, fsm_apply D g start args = AOk b.
+Proof. intros D g start args bs Hw. exact (fsm_apply_complete D g Hw start args bs). Qed.
+
+(** hence: accepted iff the automaton has an accepting run *)
+Theorem C01_accepted_iff_accepting_run :
+  forall D g start args,
+    wf_graph g -> start < nstates g ->
+    ((exists b, fsm_apply D g start args = AOk b) <-> (exists bs, Acc D g start args false bs)).
+Proof.
+  intros D g start args Hw Hs. split.
+  - intros [b Hb]. exists b. now apply fsm_apply_sound.
+  - intros [bs Ha]. now apply (fsm_apply_complete D g Hw start args bs).
+Qed.
+
 Print Assumptions C01_accepts_only_accepting_runs.
+Print Assumptions C01_search_complete.
+Print Assumptions C01_accepted_iff_accepting_run.
 Print Assumptions C01_search_decides.
 
 Definition ex_decls : list decl :=
